@@ -11,9 +11,9 @@ import (
 
 func init() {
 	register(&PropSpec{
-		ID: "C04",
+		ID:          "C04",
 		Explanation: "Structural necessary conditions for exactly-once downstream acknowledgement and consistent alias announcement. R1: the function that builds the DownstreamChunkAck reads the three ack buffers and replaces all three by fresh containers with the stream mutex held in write mode, on every path, before the ack is sent. R2: the ack id generator's Next has one call site (not in a loop) feeding AckID and starts at 0. R3: ReadDataPoints pushes exactly one result on every path that returns a chunk and none on error paths; the result carries the chunk's own sequence number and the resolved upstream's stream id. R4: each alias generator's Next is dominated by a negative membership test by value (comma-ok lookup keyed by a value type, or == on non-pointer operands). R5: the close request is preceded by the wait for the final ack flush unless the stream was resuming, and the flusher closes that signal only after its last flush.",
-		NotDecided: []string{"exactly-once acknowledgement over histories and across resume", "alias injectivity under concurrent readers", "timing of flush intervals"},
+		NotDecided:  []string{"exactly-once acknowledgement over histories and across resume", "alias injectivity under concurrent readers", "timing of flush intervals"},
 		Rules: func(r *Run) {
 			le := newLockEngine(r.P)
 			ruleC04R1(r, le)
@@ -21,6 +21,8 @@ func init() {
 			ruleC04R3(r)
 			ruleC04R4(r)
 			ruleC04R5(r)
+			ruleResumeRestoresConnected(r, "R6", "Downstream")
+			ruleLoopDrivers(r, "R7", "the ack flusher stays periodic: in package iscp every receive inside a loop from a time source is a Ticker, a time.After, or a Timer that is re-armed inside the loop when its branch continues the loop", func(fn *ssa.Function) bool { return fnPkgPath(fn) == modPath+"/iscp" }, 1)
 		},
 	})
 }
